@@ -11,6 +11,26 @@ from ..model import AnalysisError, call_attr, kwarg, unparse, walk_shallow, norm
 REG_MUTATORS = {"insert", "append", "sort", "extend", "remove", "pop", "clear", "reverse"}
 
 
+def registration_writer(run):
+    """the function that enters a registration into the registry list, found by role (it inserts / appends into
+    `self._registry`): the decorator closure of `register`, or whatever method that code was moved to"""
+    C = run.repo.cls("utype.utils.base", "TypeRegistry")
+    cands = []
+    for f in run.repo.module("utype.utils.base").functions.values():
+        if f.cls is not C and not (f.qualname.startswith("TypeRegistry.")):
+            continue
+        for c in walk_shallow(f.node):
+            if isinstance(c, ast.Call) and isinstance(c.func, ast.Attribute) and c.func.attr in ("insert", "append") \
+                    and unparse(c.func.value).endswith("._registry"):
+                cands.append(f)
+                break
+    if not cands:
+        raise AnalysisError("anchor: no function of TypeRegistry inserts into the registration list")
+    # prefer the innermost (a closure of register) when several qualify
+    cands.sort(key=lambda f: -f.qualname.count("."))
+    return cands[0]
+
+
 def registry_class(run):
     return run.repo.cls("utype.utils.base", "TypeRegistry")
 
@@ -72,7 +92,7 @@ def r16a(run, C):
 
 
 def r16b(run, C):
-    f = run.repo.func("utype.utils.base", "TypeRegistry.register.decorator")
+    f = registration_writer(run)
     fa = analysis(f)
     writes = _reg_writes(fa)
     ins = [(n, c) for n, c, k in writes if k == "insert"]
@@ -248,7 +268,7 @@ def r16c(run, C):
                         "attribute): a converter is used for types it was not registered for, or skipped for ones it was")
     run.floor("R16c", "detector evaluations", total, 200)
     # decorator registers (detector, f, priority)
-    d = run.repo.func("utype.utils.base", "TypeRegistry.register.decorator")
+    d = registration_writer(run)
     da = analysis(d)
     ins = [c for n, c, k in _reg_writes(da) if k in ("insert", "append")]
     ok = bool(ins) and all(isinstance(c.args[-1], ast.Tuple) and
